@@ -56,6 +56,7 @@ static const char *config_name = "";
 
 int rt_mode_b (void) { return (mode_b); }
 int rt_tier_thorough (void) { return (tier_thorough); }
+int rt_self (void);
 uint64_t rt_round (void) { return (cur_round); }
 long rt_param (const char *name, long dflt) {
 	for (int i = 0; i < n_params; i++) if (strcmp (params[i].name, name) == 0) return (params[i].v);
@@ -85,6 +86,7 @@ struct th {
 	uint64_t rng;
 	int fault_plan[32]; int n_fault; int futex_waits;
 	int last_ring;
+	unsigned wake_delay_us;
 	char pad[64];
 };
 static struct th T[RT_MAXT];
@@ -94,6 +96,8 @@ static uint64_t main_rng = 1;
 
 static inline uint64_t xs (uint64_t *s) { uint64_t x = *s; x ^= x << 13; x ^= x >> 7; x ^= x << 17; *s = x; return (x); }
 static inline uint64_t mix64 (uint64_t z) { z += 0x9E3779B97F4A7C15ull; z = (z ^ (z >> 30)) * 0xBF58476D1CE4E5B9ull; z = (z ^ (z >> 27)) * 0x94D049BB133111EBull; return (z ^ (z >> 31)); }
+int rt_self (void) { return (me); }
+void rt_wake_delay_us (int tid, unsigned us) { T[tid].wake_delay_us = us; }
 uint64_t rt_rand (void) { return (xs (me >= 0 ? &T[me].rng : &main_rng)); }
 unsigned rt_rand_n (unsigned n) { return ((unsigned) ((rt_rand () >> 11) % n)); }
 int rt_chance (unsigned ppm) { return ((rt_rand () >> 11) % 1000000u < ppm); }
@@ -200,6 +204,10 @@ static int hset_add (uint64_t **set, size_t *cap, size_t *cnt, uint64_t v) {
 	while ((*set)[j]) { if ((*set)[j] == v) return (0); j = (j + 1) % *cap; }
 	(*set)[j] = v; (*cnt)++; return (1);
 }
+
+/* for input-space scenarios: add a case signature to the distinct non-trivial set directly
+   (single-threaded use only) */
+void rt_distinct_add (uint64_t h) { hset_add (&hset_nt, &hcap_nt, &hcnt_nt, h); hset_add (&hset, &hcap, &hcnt, h); }
 
 /* ------------------------------------------------------------------------------------ */
 /* raw futex for the runtime's own parking */
@@ -351,7 +359,7 @@ static int pick (int forced_switch) {
 		for (int i = 0; i < NT; i++) if (T[i].state == ST_WAITQ) { T[i].state = ST_RUN; return (i); }
 		return (-1);
 	}
-	if (rt_scen.adversary) { int a = rt_scen.adversary (me, en, n); if (a >= 0) { for (int i = 0; i < n; i++) if (en[i] == a) return (a); } }
+	if (rt_scen.adversary) { int a = rt_scen.adversary (me, forced_switch, en, n); if (a >= 0) { for (int i = 0; i < n; i++) if (en[i] == a) return (a); } }
 	if (strat_pct) {
 		int b = en[0];
 		for (int i = 1; i < n; i++) if (T[en[i]].prio > T[b].prio) b = en[i];
@@ -582,6 +590,7 @@ long __wrap_syscall (long n, long a, long b, long c, long d, long e, long f) {
 			__atomic_fetch_add (&g_stamp, 1, __ATOMIC_ACQ_REL);
 			__atomic_store_n (&T[me].a_blocked, 0, __ATOMIC_RELEASE);
 			if (!(r == -1 && se == EAGAIN)) { T[me].sleeps++; T[me].op_sleeps++; }
+			if (T[me].wake_delay_us) { struct timespec wd = { 0, (long) T[me].wake_delay_us * 1000 }; nanosleep (&wd, NULL); }
 			errno = se;
 			return (r);
 		}
@@ -703,16 +712,21 @@ int __wrap_nsync_mu_semaphore_p_with_deadline (void *s, struct timespec d) {
 
 /* wrappers: malloc (linked with --wrap=malloc only by the checks that need it) */
 void *__real_malloc (size_t n) __attribute__ ((weak));
-static long mf_nth = -1, mf_seen, mf_other; static const void *mf_lo, *mf_hi;
-void rt_malloc_fail_nth (long n, const void *lo, const void *hi) { mf_lo = lo; mf_hi = hi; mf_seen = 0; mf_other = 0; __atomic_store_n (&mf_nth, n, __ATOMIC_RELEASE); }
-long rt_malloc_seen (void) { return (mf_seen); }
-long rt_malloc_other (void) { return (mf_other); }
+static long mf_nth = -1, mf_seen, mf_other, mf_failed; static const void *mf_lo[4], *mf_hi[4]; static int mf_nr;
+void rt_malloc_ranges_clear (void) { mf_nr = 0; }
+void rt_malloc_range_add (const void *lo, const void *hi) { if (mf_nr < 4) { mf_lo[mf_nr] = lo; mf_hi[mf_nr] = hi; mf_nr++; } }
+void rt_malloc_fail_nth (long n) { mf_seen = 0; mf_other = 0; mf_failed = 0; __atomic_store_n (&mf_nth, n, __ATOMIC_RELEASE); }
+long rt_malloc_seen (void) { return (__atomic_load_n (&mf_seen, __ATOMIC_RELAXED)); }
+long rt_malloc_other (void) { return (__atomic_load_n (&mf_other, __ATOMIC_RELAXED)); }
+long rt_malloc_failed (void) { return (__atomic_load_n (&mf_failed, __ATOMIC_RELAXED)); }
 void *__wrap_malloc (size_t n) {
 	const void *ra = __builtin_return_address (0);
-	if (mf_lo != NULL) {
-		if (ra >= mf_lo && ra < mf_hi) {
+	if (mf_nr) {
+		int in = 0;
+		for (int i = 0; i < mf_nr; i++) if (ra >= mf_lo[i] && ra < mf_hi[i]) in = 1;
+		if (in) {
 			long k = __atomic_fetch_add (&mf_seen, 1, __ATOMIC_RELAXED);
-			if (k == __atomic_load_n (&mf_nth, __ATOMIC_ACQUIRE)) { errno = ENOMEM; return (NULL); }
+			if (k == __atomic_load_n (&mf_nth, __ATOMIC_ACQUIRE)) { __atomic_fetch_add (&mf_failed, 1, __ATOMIC_RELAXED); errno = ENOMEM; return (NULL); }
 		} else __atomic_fetch_add (&mf_other, 1, __ATOMIC_RELAXED);
 	}
 	return (__real_malloc (n));
@@ -823,7 +837,7 @@ int main (int argc, char **argv) {
 		uint64_t rs = mix64 (base_seed * 0x9E3779B97F4A7C15ull + r);
 		main_rng = rs | 1;
 		sig_hash = FNV_INIT; round_nontrivial = 0;
-		for (int i = 0; i < RT_MAXT; i++) { T[i].state = ST_IDLE; T[i].in_round = 0; T[i].op = NULL; T[i].at = NULL; T[i].a_blocked = 0; T[i].a_timed = 0; T[i].n_fault = 0; T[i].futex_waits = 0; T[i].sleeps = 0; T[i].turn = 0; T[i].timed = 0; T[i].waddr = NULL; evn[i] = 0; }
+		for (int i = 0; i < RT_MAXT; i++) { T[i].state = ST_IDLE; T[i].in_round = 0; T[i].op = NULL; T[i].at = NULL; T[i].wake_delay_us = 0; T[i].a_blocked = 0; T[i].a_timed = 0; T[i].n_fault = 0; T[i].futex_waits = 0; T[i].sleeps = 0; T[i].turn = 0; T[i].timed = 0; T[i].waddr = NULL; evn[i] = 0; }
 		fault_ppm = 0;
 		for (int i = 0; i < 8; i++) { watched[i].addr = NULL; }
 		NT = 0;
